@@ -421,7 +421,7 @@ func (i *Interpreter) getBackendByHash(dc *value.DirectorConfig, hash []byte) (*
 			if !v.Backend.Healthy.Load() {
 				continue
 			}
-			bh := sha256.Sum256([]byte(v.Backend.Value.String()))
+			bh := sha256.Sum256([]byte(backendHashSource(v.Backend.Value)))
 			b := binary.BigEndian.Uint64(bh[:8])
 			if b%(maxNum*10) >= num && b%(maxNum*10) < num+maxNum {
 				target = v.Backend
@@ -441,4 +441,59 @@ DETERMINED:
 		}
 	}
 	return target, nil
+}
+
+// backendHashSource renders a backend declaration without the comments attached to its nodes:
+// a comment inside a backend declaration must not decide which backend a director picks.
+func backendHashSource(b *ast.BackendDeclaration) string {
+	c := &ast.BackendDeclaration{
+		Meta: b.Meta.CloneWithoutComments(),
+		Name: &ast.Ident{Meta: b.Name.Meta.CloneWithoutComments(), Value: b.Name.Value},
+	}
+	for _, p := range b.Properties {
+		c.Properties = append(c.Properties, backendPropertyWithoutComments(p))
+	}
+	return c.String()
+}
+
+func backendPropertyWithoutComments(p *ast.BackendProperty) *ast.BackendProperty {
+	c := &ast.BackendProperty{
+		Meta: p.Meta.CloneWithoutComments(),
+		Key:  &ast.Ident{Meta: p.Key.Meta.CloneWithoutComments(), Value: p.Key.Value},
+	}
+	switch t := p.Value.(type) {
+	case *ast.BackendProbeObject:
+		o := &ast.BackendProbeObject{Meta: t.Meta.CloneWithoutComments()}
+		for _, v := range t.Values {
+			o.Values = append(o.Values, backendPropertyWithoutComments(v))
+		}
+		c.Value = o
+	case *ast.String:
+		v := *t
+		v.Meta = t.Meta.CloneWithoutComments()
+		c.Value = &v
+	case *ast.Ident:
+		v := *t
+		v.Meta = t.Meta.CloneWithoutComments()
+		c.Value = &v
+	case *ast.Integer:
+		v := *t
+		v.Meta = t.Meta.CloneWithoutComments()
+		c.Value = &v
+	case *ast.Float:
+		v := *t
+		v.Meta = t.Meta.CloneWithoutComments()
+		c.Value = &v
+	case *ast.Boolean:
+		v := *t
+		v.Meta = t.Meta.CloneWithoutComments()
+		c.Value = &v
+	case *ast.RTime:
+		v := *t
+		v.Meta = t.Meta.CloneWithoutComments()
+		c.Value = &v
+	default:
+		c.Value = p.Value
+	}
+	return c
 }
